@@ -20,6 +20,8 @@ PASS_THROUGH = (
     "<core::cell::RefCell>::borrow", "<core::cell::RefCell>::borrow_mut", "<core::cell::once::OnceCell>::get",
     "<[T]>::iter", "<alloc::vec::Vec>::iter", "core::iter::traits::collect::IntoIterator>::into_iter",
     "core::iter::traits::iterator::Iterator>::next", "::values", "::iter", "<core::cell::Cell>::get",
+    "core::iter::traits::iterator::Iterator::map", "core::iter::traits::iterator::Iterator>::map",
+    "core::iter::traits::iterator::Iterator::rev", "core::iter::traits::iterator::Iterator::cloned",
 )
 
 
@@ -104,6 +106,32 @@ class Prov:
                 self.pdefs.setdefault(pk(p), []).append(("call", bb, None, t))
         self._sub = False
         self.variant_fields = False
+        self.with_base = False
+
+    def _root_args(self, l, depth=0):
+        """argument locals a reference-typed local ultimately points into (through copies / reborrows /
+        pass-through calls / iterator items)"""
+        if depth > 10:
+            return set()
+        ds = [d for d in self.defs.get(l, []) if d[0] != "partial"]
+        if 1 <= l <= self.body.argc and not ds:
+            return {l}
+        out = set()
+        if 1 <= l <= self.body.argc:
+            out.add(l)
+        for d in ds:
+            if d[0] == "call":
+                t = d[3]
+                name = callee_name(t) or ""
+                if is_pass_through(name) and t["xs"] and t["xs"][0]["k"] in ("copy", "move"):
+                    out |= self._root_args(t["xs"][0]["l"], depth + 1)
+            else:
+                rv = d[3]["rv"]
+                if rv["k"] in ("use", "cast") and rv["x"]["k"] in ("copy", "move"):
+                    out |= self._root_args(rv["x"]["l"], depth + 1)
+                elif rv["k"] in ("ref", "rawptr"):
+                    out |= self._root_args(rv["p"]["l"], depth + 1)
+        return out
 
     # ------------------------------------------------------------------------------------------
 
@@ -143,6 +171,9 @@ class Prov:
                         nm = p["n"]
                         if self.variant_fields and i > 0 and projs[i - 1] != "*" and projs[i - 1]["k"] == "d":
                             nm = "%s.%s" % (projs[i - 1]["v"], p["n"])
+                        if self.with_base:
+                            roots = self._root_args(l)
+                            return {("field", base["d"], nm, r) for r in roots} or {("field", base["d"], nm, None)}
                         return {("field", base["d"], nm)}
         if not projs:
             return self._origins_local(l, through_arith, seen)
